@@ -1315,7 +1315,7 @@ func (c IndexCase) summary() map[string]interface{} {
 }
 
 func TestC09Index(t *testing.T) {
-	vlib.Check(t, 100, 350, func(rt *rapid.T) {
+	vlib.Check(t, 100, 250, func(rt *rapid.T) {
 		c := genIndexCase(rt)
 		var cs caseStats
 		f := propIndex(c, &cs)
